@@ -139,6 +139,11 @@ func c11Unit(c *vf.Ctx) {
 				seen := map[string]bool{}
 				for len(d.keys) < nk {
 					k := randKey(rng)
+					if len(d.keys) > 0 && rng.Intn(4) == 0 {
+						// a key that embeds the fork name of another key of the same set
+						base := d.keys[rng.Intn(len(d.keys))]
+						k = []string{"", "a", "a/", "x.", "é"}[rng.Intn(5)] + []string{"fork_", "fork", ".fork_", "fork0.", "chnk0."}[rng.Intn(5)] + base
+					}
 					if !seen[k] {
 						seen[k] = true
 						d.keys = append(d.keys, k)
@@ -371,7 +376,12 @@ func init() {
 				seen := map[string]bool{}
 				for len(pool) < 6 {
 					k := randKey(rng)
-					if !seen[k] && len(k) < 120 && k != "" {
+					if len(pool) > 0 && rng.Intn(4) == 0 {
+						k = []string{"", "a", "a/", "x."}[rng.Intn(4)] + "fork_" + pool[rng.Intn(len(pool))]
+					}
+					// '$' is excluded: mrp documents that it expands environment
+					// variables in the invocation source.
+					if !seen[k] && len(k) < 120 && k != "" && !strings.Contains(k, "$") {
 						seen[k] = true
 						pool = append(pool, k)
 					}
